@@ -44,6 +44,13 @@ TEXT.update({
            "bytes satisfying the precondition, for component lengths 1-3.",
   "note": "17 string/iterator contracts (listed in evidence) are trusted; every run cross-checks printed text and parse result against the real functions on solver-chosen inputs",
  },
+ "C34": {
+  "engine": "M",
+  "technique": "symbolic execution of the rustc MIR of the data set writer, the PDU writer and the PDU receiver over a sink / transport contract whose k-th call fails, k chosen by the solver; replay over real failing writers / readers",
+  "level": "For a token stream through DataSetWriter::write (sequence, elements, encapsulated pixel data with an odd fragment; both strategies; quick: Explicit VR LE, thorough: 3 codecs), for write_pdu on an A-ASSOCIATE-RQ with user "
+           "sub-items and for read_pdu_from_wire over up to 3 reads: whichever call of the underlying writer / transport fails, the operation that made the call returns Err (never Ok), and no panic call is reachable.",
+  "note": "writers and the synchronous receiver only: files (meta group, deflate adapter flushing), the P-DATA writer's finish-on-drop, zero-length writes and the asynchronous paths are outside",
+ },
  "C36": {
   "engine": "M",
   "technique": "symbolic execution of the MIR of Display/FromStr for FullAeAddr<T> and AeAddr<T> at T = String, z3 over symbolic title/address bytes",
@@ -205,6 +212,5 @@ NOT_APPLICABLE = {
  "C30": "release/abort conformance needs associations over a harness stream (hook) and a symbolic peer; not built; true two-peer interleavings are outside both engines",
  "C32": "file-system effect of a bin crate's TCP loop (sockets, threads, global registry, write_to_file); no callable unit to execute symbolically, Kani has no file-system model",
  "C33": "behaviour of the storescu binary over sockets with image transcoding; not encodable within reach of Kani or the MIR interpreter",
- "C34": "fault injection harnesses (failing writer/reader at a symbolic offset) over StatefulEncoder / write_pdu were designed (kani/common CountW has the failure modes) but not built; io::Error paths with symbolic conditions exploded in the design probes",
  "C35": "two binaries around the image crate's PNG codec and file I/O; third-party loops over whole files, no unit to encode",
 }
